@@ -94,7 +94,7 @@ func panicClass(p string) string {
 
 func trunc(s string, n int) string {
 	if len(s) > n {
-		return s[:n] + "…"
+		return strings.ToValidUTF8(s[:n], "") + "…"
 	}
 	return s
 }
